@@ -81,7 +81,7 @@ func (state *State) AddBlockRequest(prevHash, hash *bitcoin.Hash32) (bool, error
 		return false, ErrWrongPreviousHash
 	}
 
-	if len(state.blocksRequested) >= maxRequestedBlocks ||
+	if state.outstandingBlocks() >= maxRequestedBlocks ||
 		state.pendingBlockSize > maxPendingBlockSize {
 		// Beyond request threshold so add first pending request
 		state.blocksToRequest = []bitcoin.Hash32{*hash}
@@ -146,11 +146,20 @@ func (state *State) BlockProcessed() {
 	state.blockProcessing = false
 }
 
+// outstandingBlocks returns the number of blocks that are requested and not processed yet. The
+// block handed out by NextBlock counts until BlockProcessed is called.
+func (state *State) outstandingBlocks() int {
+	if state.blockProcessing {
+		return len(state.blocksRequested) + 1
+	}
+	return len(state.blocksRequested)
+}
+
 func (state *State) GetNextBlockToRequest() (*bitcoin.Hash32, int) {
 	state.lock.Lock()
 	defer state.lock.Unlock()
 
-	if len(state.blocksToRequest) == 0 || len(state.blocksRequested) >= maxRequestedBlocks ||
+	if len(state.blocksToRequest) == 0 || state.outstandingBlocks() >= maxRequestedBlocks ||
 		state.pendingBlockSize > maxPendingBlockSize {
 		return nil, -1
 	}
